@@ -889,7 +889,10 @@ func (f *fragment) unprotectedClearRow(rowID uint64) (changed bool, err error) {
 		// to return true if any existing data was removed.
 		if cont := f.storage.Containers.Get(k); cont != nil {
 			f.storage.Containers.Remove(k)
-			changed = true
+			// an emptied container is not data
+			if cont.N() > 0 {
+				changed = true
+			}
 		}
 	}
 
@@ -2704,6 +2707,12 @@ func (f *fragment) unprotectedRows(start uint64, filters ...rowFilter) []uint64 
 	// Loop over the existing containers.
 	for i.Next() {
 		key, c := i.Value()
+
+		// a container that has been emptied (or created by a clear that found
+		// nothing) holds no bit of the row
+		if c.N() == 0 {
+			continue
+		}
 
 		// virtual row for the current container
 		vRow := key >> shardVsContainerExponent
